@@ -1,6 +1,8 @@
 """C08 - arithmetic into an imposed format equals the exact result quantized into it."""
 from . import funcs, ops, pipeline, flags
 
+from . import routes, fresh, flags, sizes, conv, dtype, carriers, funcs, ops, strings, pipeline, widths
+
 EXPLANATION = (
     "R1 the add/sub/mul kernels are typed Code<n_frac> with n_frac a free symbol, so the raw result has the sink's binary point for every imposed format "
     "(same/largest/smallest, out, out_like, constants); R2 single quantization: nothing between the exact kernel result and the sink rounds, casts to int, "
@@ -23,6 +25,9 @@ def run(ck):
     ops.const_conversion(ck, "C08.R5")
     ops.unary_ops(ck, "C08.R6")
     funcs.sizing_record(ck, "C07.R2")
-    from . import fresh
     fresh.constructor_state(ck, "C20.R2")
     pipeline.store_pipeline(ck, "C01.R2", want_bounds=False)
+    h_, _r = flags.handler_roles(ck, "C04.R1")        # "flags set accordingly": both range tests on every store
+    funcs.template_sizes(ck, "C08.R3")
+    routes.numpy_dispatch_transparent(ck, "C15.R5")
+    sizes.resize_rules(ck, {"nint": "C02.R3"})
